@@ -75,6 +75,42 @@ gen = _gen.with_lines(gen, ['_send_ping', '_send_ping', 'check_ping_timeout',
                             'receive', 'schedule_ping', '_service_task'],
                       p=0.3, cluster=0.0, stall=0.6,
                       stalls=(2, 8, 8, 32))
+_gen_general = gen
+
+
+def gen_ping_thread_stalled(rng, tier, i):
+    """Threaded server, healthy peers that answer every PING at once, and a
+    ping thread that loses the CPU for a whole PING/PONG round trip inside
+    _send_ping (stall run).  Whatever the thread does around that gap, no
+    peer may be dropped."""
+    I = rng.choice([1.0, 1.5, 2.0, 4.0])
+    T = rng.choice([0.25, 0.5, 1.0])
+    prof = _gen.profile(servers=['threaded'], I=[I], T=[T],
+                        max_sessions=rng.choice([1, 2]), p_end=0.0,
+                        p_app_disconnect=0.0, p_disconnect_all=0.0,
+                        p_handler_fault=0.0, p_reject=0.0, p_ws_fault=0.0,
+                        p_sabotage=0.0, p_second_upgrade=0.0,
+                        p_overlap_polls=0.0, p_pong_misbehave=0.0,
+                        client_msgs=(0, 2), sends=(0, 4),
+                        span=min(4 * (I + T), 20.0), p_stop_polling=0.0,
+                        p_no_monitor=0.2, p_late_open=0.0)
+    plan = _gen.gen_server_plan(rng, prof)
+    for s in plan['sessions']:
+        s['pong'] = {'default': {'mode': 'prompt', 'delay': 1}}
+        s['poll'] = {'mode': 'auto', 'gap': 1}
+        s.pop('end', None)
+    plan['line'] = {'mean': rng.choice([1, 2, 4]), 'max': 4,
+                    'focus': ['_send_ping'], 'stall': rng.choice([8, 32])}
+    return plan
+
+
+def gen(rng, tier, i):
+    if rng.random() < 0.06:
+        return gen_ping_thread_stalled(rng, tier, i)
+    return _gen_general(rng, tier, i)
+
+
+gen.lines = True
 
 def run(plan, sched_values=None, sched_seed=0):
     h = run_server_scenario(plan, sched_values, sched_seed)
